@@ -13,11 +13,11 @@ prop("C06", "model_checking",
      IQ + IT + SEQ + MQ,
      trusted=SHARED["TRUST"] + ["interrupt handlers run to completion between two atomic operations of the main context (nested handlers included); free-running sender threads are covered at the queue level by the C04 harnesses only",
                                 "the composition of the lemmas into the liveness-flavoured end-to-end sentence is a paper argument (DESIGN 5.C06)"],
-     assumptions=SHARED["ASSUME"] + ["at most AMAX (2 quick / 3 thorough) interrupt-context requests arrive during one verified call"], mc=SHARED["mc"])
+     assumptions=SHARED["ASSUME"] + ["requests arriving during a verified call are limited only by the queue's capacity (8); the thorough tier's multi-iteration cross-check of the drain loop bounds them (3 pending, 3 arrivals)"], mc=SHARED["mc"])
 claim("C06", "model_checking",
       "contract lemmas L1-L4 on the real fibre.c under a shadow <stdatomic.h> firing interrupt-context requests at every atomic operation (thread-modular, CBMC), plus the C04 many-sender queue proof; written composition for the end-to-end sentence",
-      "Each lemma holds for every invariant scheduler state of a pool of 3 / 4 fibres, every interruption point (each atomic operation) and every choice of arriving requests up to the bound; queue-level safety holds for any number of senders (C04).",
-      "Bounded pool and arrivals (labelled bounded, not proved); run-to-completion handlers at the scheduler level; 'eventually dispatched' is a composition argument on paper, not a checked liveness property.",
+      "Each lemma holds for every invariant scheduler state of a pool of 3 / 4 fibres, every interruption point (each atomic operation) and every choice of arriving requests (any number, up to the queue's capacity, at each point); queue-level safety holds for any number of senders (C04).",
+      "Bounded pool (labelled bounded, not proved); run-to-completion handlers at the scheduler level; 'eventually dispatched' is a composition argument on paper, not a checked liveness property.",
       "DESIGN.md 5.C06")
 mut("C06", "eventq-wakeup-before-publish", [("librfn/fibre.c", "\tmessageq_send(&evtq->eventq, evtp);\n\treturn fibre_run_atomic(&evtq->fibre);", "\tbool res = fibre_run_atomic(&evtq->fibre);\n\tmessageq_send(&evtq->eventq, evtp);\n\treturn res;")], r"C06", skip_tests=True)
 mut("C06", "fast-path-ignores-atomic-queue", [("librfn/fibre.c", "\t    !list_empty(&kernel.timerq) ||\n\t    !messageq_empty(&kernel.atomic_runq)) {", "\t    !list_empty(&kernel.timerq)) {")], r"C06|C03|C01", skip_tests=True)
